@@ -774,7 +774,7 @@ def truncate(scn, step):
 # ---------------------------------------------------------------- check metadata ----------------------
 LEVEL = "exploration"
 LOG_HASHSEED_INDEPENDENT = True
-RUN_CPU_LIMIT_S = 20.0  # a history takes about a millisecond
+RUN_CPU_LIMIT_S = 60.0  # a history takes about a millisecond
 TIERS = {
     "quick": {"runs": 48000, "gen": {"min_ops": 5, "max_ops": 40}, "soft_deadline_s": 120, "hard_timeout_s": 400,
               "n_echo": 16},
